@@ -133,7 +133,7 @@ ReadOnly(r) ==
              ELSE IF r.ev = "Load"
                   THEN \* C19: a store that satisfies the store invariants, or an error: never a panic, abort, allocation failure or hang
                        LET okOut == r.outcome \in {"ok", "err"}
-                           okInv == r.outcome # "ok" \/ SafeStateOK(CanonState(r.api.loaded))
+                           okInv == r.outcome # "ok" \/ (r.api.observable /\ SafeStateOK(CanonState(r.api.loaded)))
                        IN [ok |-> okOut /\ okInv, expected |-> [load |-> TRUE, outcome |-> okOut, invariants |-> okInv]]
              ELSE IF r.ev = "ConcRun"
                   THEN [ok |-> ConcConforms(r) /\ ConcSequential(r),
